@@ -192,6 +192,28 @@ CopyRename(s, u, lmap) ==     \* lmap: function level -> level
            c == Ite(g.s, g.r, q.r, p.r)
        IN [s |-> c.s, r |-> IF u < 0 THEN -c.r ELSE c.r]
 
+(* _image(u, v, umap, vmap, qvars, forall): simultaneous descent of the
+   relation u and the set v; vmap renames v BEFORE the conjunction (preimage),
+   umap renames the result AFTER quantification (image).  umap / vmap are
+   functions level -> level (empty function = None). *)
+MapGet(f, x) == IF x \in DOMAIN f THEN f[x] ELSE x
+RECURSIVE ImageRec(_, _, _, _, _, _, _)
+ImageRec(s, u, v, umap, vmap, Q, forall) ==
+  IF u = -1 \/ v = -1 THEN [s |-> s, r |-> -1]
+  ELSE IF u = 1 /\ v = 1 THEN [s |-> s, r |-> 1]
+  ELSE LET iu == Lvl(s, u)
+           jv == Lvl(s, v)
+           iv == MapGet(vmap, jv)
+           z == Min2(iu, iv)
+           uc == TopCof(s, u, z)
+           vc == TopCof(s, v, jv + z - iv)          \* the level shift of the renamed operand
+           p == ImageRec(s, uc[1], vc[1], umap, vmap, Q, forall)
+           q == ImageRec(p.s, uc[2], vc[2], umap, vmap, Q, forall)
+       IN IF z \in Q
+          THEN (IF forall THEN Ite(q.s, p.r, q.r, -1) ELSE Ite(q.s, p.r, 1, q.r))
+          ELSE LET g == FindOrAdd(q.s, MapGet(umap, z), -1, 1)
+               IN Ite(g.s, g.r, q.r, p.r)
+
 (* ---- variables ---- *)
 AddVar(s, nm) ==     \* add_var(nm) with no level: next bottom level, terminal moves down
   IF nm \in Declared(s) THEN s
